@@ -75,12 +75,16 @@ type Tr struct {
 	regionRank map[*Term]int // 0: parameter region (allocated before entry); n>0: n-th allocation of this translation
 	allocSeq  int
 	frames2   map[*Term]frameInfo
+	knownRtype map[*Term]*Term
+	pathRtype map[*Term]*Term
 }
 
 // frameInfo: a havocked heap that agrees with `old` on every region allocated before (rank <= maxRank).
 type frameInfo struct {
 	old     *Term
 	maxRank int
+	typed   map[string]bool // tags (decimal) of the struct types whose objects may have changed
+	newToo  bool            // objects allocated after maxRank may have changed as well
 }
 
 type retInfo struct {
@@ -134,6 +138,7 @@ type loopInfo struct {
 	variant EVal
 	auto    []*autoInv
 	entryVals map[ssa.Value]Val
+	typeFramed map[string]bool // struct types whose objects the loop may write through pointers obtained inside the loop
 }
 
 func NewTr(P *Program, fn *ssa.Function, c *Contract) *Tr {
@@ -148,10 +153,28 @@ func NewTr(P *Program, fn *ssa.Function, c *Contract) *Tr {
 		if !ok {
 			return nil
 		}
+		if fi.typed != nil {
+			// type-framed havoc: regions known to be allocated with another type are unchanged
+			tag, ok := tr.knownRtype[idx]
+			if !ok || fi.typed[tag.Val.String()] {
+				return nil
+			}
+			if fi.newToo {
+				if r, ok := tr.regionRank[idx]; !ok || r > fi.maxRank {
+					return nil
+				}
+			}
+			return fi.old
+		}
 		if r, ok := tr.regionRank[idx]; ok && r <= fi.maxRank {
 			return fi.old
 		}
 		return nil
+	}
+	tr.f.DistinctIdx = func(a, b *Term) bool {
+		ta, oka := tr.pathRtype[a]
+		tb, okb := tr.pathRtype[b]
+		return oka && okb && ta != tb
 	}
 	tr.f.Distinct = func(a, b *Term) bool {
 		ra, oka := tr.regionRank[a]
@@ -207,6 +230,21 @@ func (tr *Tr) recordConsts(t *Term, guard *Term) {
 		a, b := t.Args[0], t.Args[1]
 		if a.Op == "bv" && b.Op != "bv" {
 			a, b = b, a
+		}
+		if b.Op == "bv" && a.Op == "app" && a.Name == "rtype" {
+			if guard.IsTrue() {
+				if tr.knownRtype == nil {
+					tr.knownRtype = map[*Term]*Term{}
+				}
+				tr.knownRtype[a.Args[0]] = b
+			}
+			// facts that hold under a path condition: usable for skipping stores made on that path
+			if tr.pathRtype == nil {
+				tr.pathRtype = map[*Term]*Term{}
+			}
+			if _, dup := tr.pathRtype[a.Args[0]]; !dup {
+				tr.pathRtype[a.Args[0]] = b
+			}
 		}
 		if b.Op == "bv" && a.Op != "bv" {
 			if tr.consts == nil {
@@ -730,6 +768,7 @@ func (tr *Tr) instr(fr *Frame, in ssa.Instruction) {
 		p := tr.val(x.Addr)
 		tr.nilCheck(x.Pos(), p[0], "nil pointer dereference (store)")
 		tr.lockCheckStore(fr, x)
+		tr.typeFrameCheck(fr, x.Pos(), rootOf(x.Addr), p[0])
 		tr.storeLeaves(fr.st, shape(x.Val.Type()), p[0], p[1], tr.val(x.Val))
 	case *ssa.FieldAddr:
 		p := tr.val(x.X)
@@ -1338,4 +1377,25 @@ func describe(prog *ssa.Program, pos token.Pos) string {
 	}
 	p := prog.Fset.Position(pos)
 	return fmt.Sprintf("%s:%d", strings.TrimPrefix(p.Filename, "/repo/"), p.Line)
+}
+
+// typeFrameCheck: inside a loop whose havoc assumed "only objects of struct type T change", a write through a pointer
+// obtained inside the loop must indeed hit an object allocated as T.
+func (tr *Tr) typeFrameCheck(fr *Frame, pos token.Pos, root ssa.Value, reg *Term) {
+	if fr.cur == nil {
+		return
+	}
+	pt, ok := root.Type().Underlying().(*types.Pointer)
+	if !ok {
+		return
+	}
+	name := types.TypeString(pt.Elem(), nil)
+	for _, li := range fr.loops {
+		if li.typeFramed[name] && li.blocks[fr.cur] {
+			if in, ok := root.(ssa.Instruction); ok && li.blocks[in.Block()] {
+				tr.obligeNamed("rtype", "", pos, tr.f.Eq(tr.rtype(reg), tr.f.BVu(64, typeTag(pt.Elem()))), "object written inside the loop was allocated as "+name+" (assumed by the loop frame)")
+				return
+			}
+		}
+	}
 }
